@@ -10,8 +10,8 @@ struct Model { Ent e[12]; int n;
 	int find(const char* s, const char* k) const { for (int i = 0; i < n; i++) if (!strcmp(e[i].sec, s) && !strcmp(e[i].key, k)) return i; return -1; }
 	void set(const char* s, const char* k, const char* v) { int i = find(s, k); if (i < 0) { i = n++; strcpy(e[i].sec, s); strcpy(e[i].key, k); } strcpy(e[i].val, v); }
 };
-// line templates: 0 "[s]" 1 "[t]" 2 "k=v" 3 "k2 = w" 4 "  n=1" 5 "#c" 6 ";d" 7 "" 8 "junk"
-static const char* const LINE[9] = { "[s]", "[t]", "k=v", "k2 = w", "  n=1", "#c", ";d", "", "junk" };
+// line templates (section "s" is a proper prefix of section "st"): 0 "[s]" 1 "[st]" 2 "k=v" 3 "k2 = w" 4 "  n=1" 5 "#c" 6 ";d" 7 "" 8 "junk"
+static const char* const LINE[9] = { "[s]", "[st]", "k=v", "k2 = w", "  n=1", "#c", ";d", "", "junk" };
 
 // p0 = number of lines, p1 = number of set() calls, p2 = 1: write by destructor (else explicit write())
 extern "C" void h_ini(void)
@@ -26,7 +26,7 @@ extern "C" void h_ini(void)
 		int k = vp_concretize(vp_range(0, 8)); kinds[i] = k;
 		int l = (int)strlen(LINE[k]); memcpy(text + n, LINE[k], l); n += l;
 		if (i + 1 < nl || finalnl) { if (crlf) text[n++] = '\r'; text[n++] = '\n'; }
-		if (k == 0) strcpy(cur, "s"); else if (k == 1) strcpy(cur, "t");
+		if (k == 0) strcpy(cur, "s"); else if (k == 1) strcpy(cur, "st");
 		else if (k == 2) m.set(cur, "k", "v"); else if (k == 3) m.set(cur, "k2", "w"); else if (k == 4) m.set(cur, "n", "1");
 	}
 	text[n] = 0;
@@ -41,7 +41,7 @@ extern "C" void h_ini(void)
 			vp_assert(cini.has(name), "pre-existing key is read (with or without a final newline)");
 			vp_assert(cini[name] == m.e[i].val, "pre-existing value is read");
 		}
-		static const char* const NAMES[4][2] = { { "s", "k" }, { "s", "z" }, { "u", "k" }, { "t", "n" } };
+		static const char* const NAMES[4][2] = { { "s", "k" }, { "s", "z" }, { "u", "k" }, { "st", "n" } };
 		for (int q = 0; q < nset; q++) {
 			int w = vp_concretize(vp_range(0, 3));
 			char v[4]; int vl = vp_concretize(vp_range(1, 2));
